@@ -123,9 +123,15 @@ func NewIPTransport(config Config, a *accessory.Accessory, as ...*accessory.Acce
 		stopped:   make(chan struct{}),
 	}
 
-	t.addAccessory(a)
+	if err := t.addAccessory(a); err != nil {
+		cancel()
+		return nil, err
+	}
 	for _, a := range as {
-		t.addAccessory(a)
+		if err := t.addAccessory(a); err != nil {
+			cancel()
+			return nil, err
+		}
 	}
 
 	// Users can only pair discoverable accessories
@@ -249,8 +255,10 @@ func (t *ipTransport) updateMDNSReachability() {
 	}
 }
 
-func (t *ipTransport) addAccessory(a *accessory.Accessory) {
-	t.container.AddAccessory(a)
+func (t *ipTransport) addAccessory(a *accessory.Accessory) error {
+	if err := t.container.AddAccessory(a); err != nil {
+		return err
+	}
 
 	for _, s := range a.Services {
 		for _, c := range s.Characteristics {
@@ -268,6 +276,8 @@ func (t *ipTransport) addAccessory(a *accessory.Accessory) {
 			c.OnValueUpdate(onChange)
 		}
 	}
+
+	return nil
 }
 
 func (t *ipTransport) notifyListener(a *accessory.Accessory, c *characteristic.Characteristic, except net.Conn) {
